@@ -129,6 +129,7 @@ pub fn execute_stall(p: &Program, prefix: &[usize], horizon: usize, on_decision:
         sess.clock.store(T0, Ordering::SeqCst);
         sess.set_flag(F_NO_URING, !p.cfg.uring);
         sess.set_flag(F_FORCE_SYNC, !p.cfg.uring);
+        sess.set_flag(crate::session::F_MEM_POINTS, p.cfg.mem_points);
         let sched = Sched::new(prefix.to_vec(), horizon, &roles);
         sess.set_sched(Some(sched.clone() as Arc<dyn SchedHooks>));
         sess.log_enabled.store(want_log, Ordering::SeqCst);
@@ -143,6 +144,14 @@ pub fn execute_stall(p: &Program, prefix: &[usize], horizon: usize, on_decision:
         // key i maps to shard i mod workers, so that the work distribution is reproducible.
         let ok = !(p.cfg.persistent && p.cfg.workers > 1)
             || p.tables.keys.iter().enumerate().all(|(i, k)| sut.store().verif_shard_of(k) == Some(i % p.cfg.workers));
+        // points inside the bucket guard: a thread parked there must not hold a lock another thread needs
+        let ok = ok && (!p.cfg.mem_points || {
+            let mut b: Vec<usize> = p.tables.keys.iter().map(|k| sut.store().verif_bucket_of(k)).collect();
+            let n = b.len();
+            b.sort();
+            b.dedup();
+            b.len() == n
+        });
         if ok {
             break (sess, sched, sut);
         }
